@@ -367,6 +367,13 @@ func (vc *VC) instantiatedQuery(mark int, goal Term, sliced bool, lean bool) (st
 						}
 					}
 				}
+				if len(out) == 0 && lean && len(skolems) == 0 && len(vars) == 1 {
+					// a ground goal: its own index terms are the natural instantiation points
+					out = plainSeeds
+					if len(out) > 12 {
+						out = out[:12]
+					}
+				}
 				if len(out) == 0 && !lean {
 					if len(vars) > 1 {
 						out = plainSeeds
@@ -398,6 +405,44 @@ func (vc *VC) instantiatedQuery(mark int, goal Term, sliced bool, lean bool) (st
 				}
 			} else {
 				s1, s2 := seedsFor(vars[0]), seedsFor(vars[1])
+				// no goal variable with the same name: combine the goal's skolem terms
+				// with its ground index terms (e.g. content(j := cursor, i := offset + k))
+				mixed := func(v string, cur []*sx) []*sx {
+					stem := v
+					if k := strings.Index(v, "!"); k >= 0 {
+						stem = v[:k]
+					}
+					for _, sk := range skolems {
+						parts := strings.SplitN(sk.atom, "!", 4)
+						if len(parts) >= 3 && parts[2] == stem {
+							return cur
+						}
+					}
+					var out []*sx
+					seen := map[string]bool{}
+					add := func(t *sx) {
+						if ts := t.String(); !seen[ts] && len(out) < 9 {
+							seen[ts] = true
+							out = append(out, t)
+						}
+					}
+					for _, sk := range skolems {
+						for _, t := range skTerms[sk.atom] {
+							if len(t.String()) < 120 {
+								add(t)
+							}
+						}
+					}
+					for _, t := range plainSeeds {
+						if !strings.HasPrefix(t.String(), "sk!") {
+							add(t)
+						}
+					}
+					return out
+				}
+				if len(skolems) > 0 {
+					s1, s2 = mixed(vars[0], s1), mixed(vars[1], s2)
+				}
 				if len(s1) > 16 {
 					s1 = s1[:16]
 				}
